@@ -464,4 +464,4 @@ class LinkedGen:
         return hs
 
 
-GENS = [LinkedGen("list", True)]
+GENS = [LinkedGen("list", True), LinkedGen("slist", False)]
